@@ -334,6 +334,17 @@ def check_C14(tier, seed):
         if l.startswith("FAIL"):
             failures.append(ProbeFailure(f"C14:attr:{l.split()[1]}", l[:300], prog, "no FAIL line", l[:300]))
 
+    # a derive addressed to the reference type alone is what the natural-order sort needs (nested fields included)
+    prog = dg.ref_ord_program()
+    ok, out, err = probes.build_and_run("derive_ref_ord", prog)
+    evaluations += 1
+    if not ok or "DONE" not in out:
+        first = next((l for l in err.splitlines() if l.startswith("error")), err[:200])
+        failures.append(ProbeFailure("C14:reford:compile", f"soa_attr(Ref, derive(.. Ord)) + sort() of the mutable slice (flat and through a nested field) does not compile / run: {first}", prog, "runs", "rejected"))
+    for l in out.splitlines():
+        if l.startswith("FAIL"):
+            failures.append(ProbeFailure(f"C14:reford:{l.split()[1]}", l[:300], prog, "no FAIL line", l[:300]))
+
     def widen():
         fs, _, _, _ = run_derive_cases(dg.cases("thorough", seed + 1), "widen")
         return fs
